@@ -196,6 +196,58 @@ def dir_to_file_scenario(rng, res, count):
     return n
 
 
+def lossy_sibling_names_scenario(rng, res, count):
+    """C09, local: pairs of sibling files whose names differ only in a byte that is not valid UTF-8 (Latin-1 names, `report-\\xfe` /
+    `report-\\xff`), all in one plan, `--jobs 8`, every copy syscall slowed by 250 ms (strace delay injection) so that the transfers
+    overlap. Each file has its OWN reserved staging sibling, so nothing can go wrong; every destination path must hold its old or
+    its new bytes when the run is over, and the same command again must complete with the source's bytes everywhere (seed C09-P:
+    the staging name was built from `dst.display()`, which maps every invalid byte to U+FFFD — the pair shared one staging file,
+    and one task renamed it into place while the other was still copying into it)."""
+    pairs = [(b"report-\xfe.dat", b"report-\xff.dat"), (b"caf\xe9.txt", b"caf\xe8.txt"), (b"data/a\x80b.bin", b"data/a\x81b.bin"), (b"data/\xc0", b"data/\xc1")]
+    src, dst = {}, {}
+    for i, (n1, n2) in enumerate(pairs):
+        src[n1], dst[n1] = mk(rng, 1_200_000 + 1000 * i), mk(rng, 900_000)
+        src[n2], dst[n2] = b"small new %d\n" % i, b"small old version %d\n" % i
+    with Sandbox("C09ls") as sb:
+        sroot, droot = os.fsencode(sb.path("src")), os.fsencode(sb.path("dst"))
+        for root, tree, t in ((sroot, src, 1_650_000_000), (droot, dst, 1_500_000_000)):
+            for rel, data in tree.items():
+                p = os.path.join(root, rel)
+                os.makedirs(os.path.dirname(p), exist_ok=True)
+                with open(p, "wb") as fh:
+                    fh.write(data)
+                os.utime(p, (t, t))
+        def read(root):
+            out = {}
+            for d, _, files in os.walk(root):
+                for fn in files:
+                    p = os.path.join(d, fn)
+                    out[os.path.relpath(p, root)] = open(p, "rb").read()
+            return out
+        cmd = [CLI_BIN, "sync", "-r", "--jobs", "8", os.fsdecode(sroot), os.fsdecode(droot)]
+        sl = "copy_file_range,sendfile,write,pwrite64"
+        r1 = subprocess.run(["strace", "-f", "-qq", "-o", "/dev/null", "-e", f"trace={sl}", "-e", f"inject={sl}:delay_enter=250000"] + cmd,
+                            env=sb.env, cwd=sb.dir, stdout=subprocess.PIPE, stderr=subprocess.PIPE)
+        after = {k: v for k, v in read(droot).items() if not k.endswith(b".copia-tmp")}
+        count("lossy-sibling-names/local")
+        rep = {"names": [repr(a) + " / " + repr(b) for a, b in pairs], "flags": ["--jobs", "8"], "rc_slow_run": r1.returncode,
+               "stdout": r1.stdout.decode("utf-8", "replace")[-400:], "stderr": r1.stderr.decode("utf-8", "replace")[-400:]}
+        for q, c in after.items():
+            if c != dst.get(q) and c != src.get(q):
+                res["violations"].append(("truncated-or-mixed-file-at-live-path", f"after the run (rc {r1.returncode}), destination {q!r} holds {len(c)} bytes that are neither its old bytes ({len(dst.get(q, b''))}) nor the complete source file ({len(src.get(q, b''))} bytes)", rep))
+        for q in dst:
+            if q not in after:
+                res["violations"].append(("destination-file-missing-after-kill", f"after the run (rc {r1.returncode}), destination {q!r} is missing", rep))
+        r2 = subprocess.run(cmd, env=sb.env, cwd=sb.dir, stdout=subprocess.PIPE, stderr=subprocess.PIPE)
+        again = {k: v for k, v in read(droot).items() if not k.endswith(b".copia-tmp")}
+        wrong = sorted(repr(q) for q in src if again.get(q) != src[q])
+        if r1.returncode == 0 and [q for q in src if after.get(q) != src[q]]:
+            res["violations"].append(("exit-0-but-planned-file-not-delivered", f"the slowed run exited 0 but {[repr(q) for q in src if after.get(q) != src[q]][:4]} do not hold the source's bytes", rep))
+        if r2.returncode != 0 or wrong:
+            res["violations"].append(("rerun-does-not-complete", f"the same command again: rc {r2.returncode}, destination differs from the source at {wrong[:4]}", dict(rep, rerun_stderr=r2.stderr.decode('utf-8', 'replace')[-300:])))
+    return 1
+
+
 def delete_rerun_scenario(rng, res, count):
     """C09, second sentence: `sync -r --delete --jobs 4`, killed right before the rename of one file (its staging file is left
     behind and — not being filtered from the destination listing — is a planned delete of the next run). The same command again,
@@ -267,6 +319,7 @@ def run(pid, tier, seed, rundir, model_run):
             delete_rerun_scenario(rng, res, count)
             nk += busy_destination_scenario(rng, res, count)
             nk += dir_to_file_scenario(rng, res, count)
+            nk += lossy_sibling_names_scenario(rng, res, count)
             continue
         if longlist:
             direction = "push"
